@@ -27,7 +27,7 @@ def make_config(rng, profile, tier):
     cfg['threads'] = rng.choice([1, 2, 3, 0])
     cfg['panel'] = (profile != 'est') and rng.random() < 0.15
     # row labels of the tables handed to the library (buggify): positions, a permutation of them, with gaps, shifted
-    cfg['index_kind'] = rng.choice(['range', 'range', 'keep', 'gaps', 'offset'])
+    cfg['index_kind'] = rng.choice(['range', 'range', 'keep', 'gaps', 'offset', 'dup'])
     if cfg['panel']:
         cfg['weight'] = None
         cfg['N'] = max(cfg['N'], 3)
@@ -85,7 +85,8 @@ def make_ops(rng, cfg, profile, tier):
         elif r < 0.81:
             ops.append({'op': 'SPLIT_PARTS', 'a': [rng.randrange(2, 6), rng.randrange(1 << 16) % 5, rng.random() < 0.3]})
         elif r < 0.815:
-            ops.append({'op': 'EXTRACT_PARTS', 'a': [rng.randrange(2, 5), rng.randrange(1 << 16) % 5]})
+            ops.append({'op': rng.choice(['EXTRACT_PARTS', 'ROW_PARTS', 'FD_HESSIAN']),
+                        'a': [rng.randrange(2, 5), rng.randrange(1 << 16) % 5]})
         elif r < 0.82:
             ops.append({'op': 'ALIAS', 'a': [rng.randrange(64), rng.randrange(1 << 16) % 5, rng.randrange(1 << 16) % 5]})
         elif r < 0.85:
@@ -167,6 +168,8 @@ class Session:
             t.index = [3 * i + (i % 2) for i in range(len(t))]
         elif ik == 'offset':
             t.index = [i + 1000 for i in range(len(t))]
+        elif ik == 'dup':
+            t.index = [i // 2 for i in range(len(t))]     # two files joined with pandas.concat: labels repeat
         ll, w, betas = specs.build_formulas(cfg)
         if self.cfg.get('panel'):
             import biogeme.expressions as ex
@@ -353,7 +356,7 @@ class Session:
         kind, a = op['op'], op['a']
         ctx.count('op:' + kind)
         np = self.np
-        if self.cfg.get('panel') and kind in ('PARTS', 'PER_OBS', 'SIM', 'H_NULL', 'SPLIT_PARTS', 'EXTRACT_PARTS'):
+        if self.cfg.get('panel') and kind in ('PARTS', 'PER_OBS', 'SIM', 'H_NULL', 'SPLIT_PARTS', 'EXTRACT_PARTS', 'ROW_PARTS'):
             # cross-sectional comparisons: replaced by a plain evaluation on panel data
             kind, a = 'LLD', [a[0] if kind != 'PARTS' else 0, (a[1] if len(a) > 1 else a[0]) % 5, False, True, True]
         if kind == 'MAKE':
@@ -433,6 +436,50 @@ class Session:
                 ctx.fail('I04.parts', f'the {P} stepped extracts hold {nrows} rows, the sample has {self.N}')
             self._cmp(f'sum of the log likelihoods of the {P} stepped extracts', tot, want, oracle='I04.parts')
             ctx.log(kind, P, fhex(tot))
+        elif kind == 'ROW_PARTS':
+            # one Database per row (mdcev_row_split), all rows or a range of positions: the parts are exactly those rows
+            import biogeme.database as db
+            P, xs = a
+            x = self.point(xs)
+            t0 = self.table.copy()
+            ik = self.cfg.get('index_kind')
+            if ik == 'dup':
+                t0.index = [i // 2 for i in range(len(t0))]
+            elif ik == 'gaps':
+                t0.index = [3 * i + (i % 2) for i in range(len(t0))]
+            elif ik == 'keep':
+                t0.index = list(range(len(t0)))[::-1]
+            d0 = db.Database('whole', t0)
+            positions = None if P % 2 else list(range(P % self.N, self.N, 2))
+            parts = d0.mdcev_row_split(positions)
+            want_pos = list(range(self.N)) if positions is None else positions
+            if len(parts) != len(want_pos):
+                ctx.fail('I04.parts', f'mdcev_row_split({positions}) returned {len(parts)} parts for {len(want_pos)} rows')
+            _, rows, w = self.ref_ll(x)
+            tot, want = 0.0, 0.0
+            for part, pos in zip(parts, want_pos):
+                if len(part.data) != 1:
+                    ctx.fail('I04.parts', f'the part for row position {pos} holds {len(part.data)} rows '
+                                          f'(labels {list(t0.index)})')
+                rec = self.make_object(1, None, table=part.data.reset_index(drop=True))
+                self.objects.pop()
+                tot += float(rec['b'].calculate_likelihood(self.vec(x), scaled=False))
+                want += w[pos] * rows[pos]
+            self._cmp(f'sum of the log likelihoods of the one-row parts {positions}', tot, want, oracle='I04.parts')
+            ctx.log(kind, P, fhex(tot))
+        elif kind == 'FD_HESSIAN':
+            # the finite-difference Hessian of the (unscaled) log likelihood approximates the analytical one
+            rec = self.objects[a[0] % len(self.objects)] if self.objects else self.make_object(1, None)
+            x = self.point(a[1])
+            b = rec['b']
+            fd = np.asarray(b.likelihood_finite_difference_hessian(self.vec(x)), dtype=float)
+            an = np.asarray(b.calculate_likelihood_and_derivatives(self.vec(x), scaled=False, hessian=True,
+                                                                   bhhh=False).hessian, dtype=float)
+            scale = max(1.0, float(np.max(np.abs(an))))
+            if fd.shape != an.shape or float(np.max(np.abs(fd - an))) > 1e-3 * scale:
+                ctx.fail('I04.deriv', f'finite-difference Hessian of the log likelihood {fd.tolist()} vs the analytical one '
+                                      f'{an.tolist()}')
+            ctx.log(kind, fhex(float(an[0][0])))
         elif kind == 'ALIAS':
             # results returned for one point stay what they were after the object has computed another point
             rec = self.objects[a[0] % len(self.objects)]
